@@ -66,7 +66,8 @@ def k1(ctx, kr):
             if pr.panic: _add(kr, 'C15/K1/panic', 'LspProject::tokenize panics: ' + pr.panic.msg[:60], {}, None); return
             res = pr.result
             if res.disc != 0 or len(res.f[0].items) != K:
-                _add(kr, 'C15/K1/token-count', '%d identifier tokens produce %s semantic tokens' % (K, 'an error' if res.disc != 0 else len(res.f[0].items)), {'k': K}, None); return
+                _add(kr, 'C15/K1/token-count', '%d identifier tokens produce %s semantic tokens' % (K, 'an error' if res.disc != 0 else len(res.f[0].items)), {'k': K},
+                     ('semtok_document', (' '.join('v%d' % i for i in range(K)) + '\n', [('v%d' % i, ['variable']) for i in range(K)]))); return
             out = res.f[0].items
             # decode the LSP relative encoding
             al = None; ac = None; bad = []
@@ -131,6 +132,47 @@ def _replay_positions(pos):
         return got != want, {'text': text, 'decoded': got, 'expected': want}
     return rp
 
+@replay_factory('semtok_document')
+def _replay_semtok_document(text, expect):
+    """semantic tokens of a small document through the LSP binary, decoded with the legend of the initialize response.
+    expect: 'error' (a document with a lexical error yields no token list) or a list of (lexeme, allowed legend names) that must all be reported, in order"""
+    def rp(ctx):
+        import lspclient
+        s = lspclient.LspSession(ctx.ironplcc_path())
+        try:
+            init = s.initialize(); uri = 'file:///tmp/verif_c15d.st'
+            s.did_open(uri, text, 1); s.diagnostics_for(uri, timeout=5)
+            rid = s.request('textDocument/semanticTokens/full', {'textDocument': {'uri': uri}})
+            r = s.wait_for(lambda x: x.get('id') == rid, timeout=5)
+        finally:
+            s.close()
+        if r is None: return True, {'note': 'request not answered', 'text': text}
+        if expect == 'error':
+            bad = r.get('result') not in (None,) and bool((r.get('result') or {}).get('data'))
+            return bad, {'text': text, 'result': str(r.get('result'))[:120]}
+        if r.get('result') is None: return True, {'note': 'no token result for a document without lexical errors', 'text': text, 'error': str(r.get('error'))[:120]}
+        legend = None
+        try: legend = init['result']['capabilities']['semanticTokensProvider']['legend']['tokenTypes']
+        except Exception: pass
+        data = r['result']['data']; got = []; al = ac = 0; rows = text.split('\n')
+        for i in range(0, len(data), 5):
+            dl, ds, ln, ty = data[i], data[i + 1], data[i + 2], data[i + 3]
+            if dl == 0: ac += ds
+            else: ac = ds
+            al += dl
+            lex = rows[al][ac:ac + ln] if al < len(rows) else None
+            got.append((lex, legend[ty] if legend and ty < len(legend) else ty))
+        bad = False; j = 0
+        for lex, allowed in expect:
+            while j < len(got) and got[j][0] != lex: j += 1
+            if j >= len(got):
+                if None not in allowed: bad = True
+                j = 0; continue
+            if got[j][1] not in allowed: bad = True
+            j += 1
+        return bad, {'text': text, 'decoded': got[:12], 'expected': expect}
+    return rp
+
 # ---------------------------------------------------------------------------------------------- K2 legend table
 @kernel('K2 lsp.semantic_token_legend')
 def k2(ctx, kr):
@@ -170,7 +212,9 @@ def k2(ctx, kr):
         elif tname in ('SingleByteString', 'DoubleByteString'): allowed = {'string', None}
         else: allowed = {None, 'variable', 'keyword', 'operator', 'string', 'modifier'} - {'comment'}
         if got not in allowed:
-            _add(kr, 'C15/K2/legend/' + tname, 'token type %s (%r) is reported with legend entry %s; its lexeme class allows %s' % (tname, sp, got, sorted(map(str, allowed))), {'token_type': tname, 'legend': got}, None)
+            lexeme = sp if sp is not None else {'Identifier': 'abc', 'Comment': '(* c *)', 'SingleByteString': "'s'", 'DoubleByteString': '"s"', 'Digits': '12'}.get(tname)
+            rep = ('semtok_document', ('x %s y\n' % lexeme, [(lexeme, [a for a in allowed])])) if lexeme else None
+            _add(kr, 'C15/K2/legend/' + tname, 'token type %s (%r) is reported with legend entry %s; its lexeme class allows %s' % (tname, sp, got, sorted(map(str, allowed))), {'token_type': tname, 'legend': got}, rep)
         if len(kr.samples) < 3: kr.samples.append({'token_type': tname, 'legend': got})
     M.explore(entry, on_path)
     kr.queries += M.stats['smt']
@@ -197,7 +241,8 @@ def k4(ctx, kr):
         kr.nontrivial += 1
         if pr.panic: _add(kr, 'C15/K4/panic', pr.panic.msg[:60], {}, None); return
         if (pr.result.disc == 1) != (st['nd'] == 1):
-            _add(kr, 'C15/K4/partial-list', 'tokenize returns %s although the document %s a lexical error' % ('Ok' if pr.result.disc == 0 else 'Err', 'has' if st['nd'] else 'has no'), {'lexical_errors': st['nd']}, None)
+            _add(kr, 'C15/K4/partial-list', 'tokenize returns %s although the document %s a lexical error' % ('Ok' if pr.result.disc == 0 else 'Err', 'has' if st['nd'] else 'has no'), {'lexical_errors': st['nd']},
+                 ('semtok_document', ('x @ y\n', 'error') if st['nd'] else ('x y\n', [('x', ['variable']), ('y', ['variable'])])))
         if len(kr.samples) < 2: kr.samples.append({'lexical_errors': st['nd'], 'result': 'Err' if pr.result.disc else 'Ok'})
     M.explore(entry, on_path)
     kr.queries += M.stats['smt']
@@ -228,4 +273,14 @@ def k5(ctx, kr):
     kr.stubs = LC.STUB_NOTES
     kr.exhaustive = True
 
-KERNELS = [k1, k2, k4, k5]
+# ---------------------------------------------------------------------------------------------- K6 the token stream the semantic tokens are computed from keeps every lexeme
+@kernel('K6 xform_tokens.stream_keeps_every_token')
+def k6(ctx, kr):
+    """LspProject::tokenize highlights what tokenize_program returns, i.e. the lexer's tokens after insert_keyword_statement_terminators:
+    that transformation may add empty-text semicolons but must keep every token (same kernel as C08-K2, its preservation assertion)"""
+    from . import C08 as K08
+    K08.k2(ctx, kr)
+    for f in kr.findings: f.role = f.role.replace('C08/K2/', 'C15/K6/')
+    kr.findings = [f for f in kr.findings if 'tokens-not-preserved' in f.role or 'panic' in f.role]
+
+KERNELS = [k1, k2, k4, k5, k6]
